@@ -443,6 +443,8 @@ func (o *c09Oracle) clear(st cache.Stats) {
 // ---- running the real cache
 
 type c09Runner struct {
+	arena  *c09Arena
+	keys   map[string][]byte
 	c      cache.Cache
 	or     *c09Oracle
 	events []string
@@ -452,6 +454,34 @@ type c09Runner struct {
 type c09RunFrame struct {
 	cbs [][]c09Op
 	i   int
+}
+
+// placeKeys cuts every key of the script (callbacks included) out of one array, back to back and
+// in order of first appearance: the spare capacity of a key is the keys that follow it.
+func (r *c09Runner) placeKeys(ops []c09Op) {
+	if r.arena == nil {
+		r.arena = &c09Arena{buf: make([]byte, 0, 1<<14)}
+		r.keys = map[string][]byte{}
+	}
+	for _, o := range ops {
+		if o.kind == 'S' {
+			if _, ok := r.keys[string(o.k)]; !ok && len(r.arena.buf)+len(o.k) < cap(r.arena.buf)/2 {
+				start := len(r.arena.buf)
+				r.arena.buf = append(r.arena.buf, o.k...)
+				r.keys[string(o.k)] = r.arena.buf[start : start+len(o.k)]
+			}
+			for _, cb := range o.cbs {
+				r.placeKeys(cb)
+			}
+		}
+	}
+}
+
+func (r *c09Runner) keyPiece(k []byte) []byte {
+	if p, ok := r.keys[string(k)]; ok {
+		return p
+	}
+	return r.arena.piece(k)
 }
 
 func (r *c09Runner) obs() (string, cache.Stats) {
@@ -493,18 +523,40 @@ func (r *c09Runner) onDelete(k, v []byte) {
 
 func cloneBytes(b []byte) []byte { return append([]byte{}, b...) }
 
+// c09Arena hands out the keys and values of Set calls as consecutive pieces of one array: every
+// piece has spare capacity, and that capacity is where the pieces handed out before and after it
+// live (a caller that cuts its keys out of one buffer).  Nothing is written to a piece after it
+// has been handed out.
+type c09Arena struct{ buf []byte }
+
+func (a *c09Arena) piece(b []byte) []byte {
+	if len(a.buf)+len(b)+1 > cap(a.buf) {
+		a.buf = make([]byte, 0, 1<<14)
+	}
+	start := len(a.buf)
+	a.buf = append(a.buf, b...)
+	a.buf = append(a.buf, 0xEE) // a guard byte between pieces, never part of any
+	return a.buf[start : start+len(b)]
+}
+
 func (r *c09Runner) runOps(ops []c09Op) {
 	for _, o := range ops {
 		switch o.kind {
 		case 'S':
-			k, v := cloneBytes(o.k), cloneBytes(o.v) // the cache keeps the slices
+			// the cache keeps the slices: they are the cache's from now on, but the array around
+			// them is not
+			k, v := r.keyPiece(o.k), r.arena.piece(o.v)
 			if len(v) == 0 && len(k)%2 == 0 {
 				// an empty value is stored as a nil slice for every other key length and as an
 				// empty non-nil one otherwise: an entry with no bytes is still an entry
 				v = nil
 			}
 			r.stack = append(r.stack, &c09RunFrame{cbs: o.cbs})
-			r.or.beginSet(k, v)
+			var vRef []byte // the oracle's own copy (nil stays nil)
+			if v != nil {
+				vRef = cloneBytes(v)
+			}
+			r.or.beginSet(cloneBytes(k), vRef)
 			ret := r.c.Set(k, v)
 			r.stack = r.stack[:len(r.stack)-1]
 			ev := "S=0"
@@ -562,6 +614,8 @@ func evalC09(line string) Result {
 				panicked = strings.ReplaceAll(fmt.Sprint(v), "\n", "\\n")
 			}
 		}()
+		r.placeKeys(cs.ops)
+		r.arena.buf = append(r.arena.buf, 0xEE)
 		r.runOps(cs.ops)
 	}()
 
